@@ -265,6 +265,20 @@ def feature_of(value):
 
 
 # ---------------------------------------------------------------- world
+class LazyValue(dict):
+    """A store value whose library object can be dropped and rebuilt from its spec: in "ephemeral" runs the client
+    keeps only WHAT it saved, not the circuit objects (nor their custom gate definitions) themselves."""
+
+    def __getitem__(self, k):
+        v = dict.__getitem__(self, k)
+        if k == "obj" and v is None:
+            return dict.__getitem__(self, "_rebuild")()
+        return v
+
+    def drop(self):
+        dict.__setitem__(self, "obj", None)
+
+
 class World:
     PID = PID
     TIERS = {
@@ -312,6 +326,8 @@ class World:
         self._strip_pi_constants(c)
         if r.random() < 0.3:
             c["cv"] = 1   # same custom gate names, other definitions (definitions are per circuit)
+        if r.random() < 0.15:
+            c["cn"] = 1   # the custom gates carry names that differ from built-in names only in letter case
         if r.random() < 0.2:
             c["n"] = max(c.get("n", 0), n + r.randint(1, 2))  # idle qubits on top
         return c
@@ -360,6 +376,7 @@ class World:
             "faults": r.choice(["low", "medium"]) if faulty else "none",
             "paths": r.randint(1, 6),
             "clients": r.choice([1, 2, 3]),
+            "ephemeral_defs": r.random() < 0.35,
         }
         n_steps = r.randint(4, 18 if tier == "quick" else 30)
         steps = []
@@ -421,7 +438,10 @@ class World:
         from orquestra.quantum.circuits import _gates as G
         from orquestra.quantum.circuits import _serde as S
 
-        st = {"C": C, "G": G, "S": S, "acked_sizes": {}}
+        st = {"C": C, "G": G, "S": S, "acked_sizes": {}, "ephemeral": bool(plan["config"].get("ephemeral_defs"))}
+        gen.EPHEMERAL_DEFS[0] = st["ephemeral"]
+        if st["ephemeral"]:
+            ctx.probe("ephemeral-definitions")
         store = Store(ctx, plan["config"].get("fs_buffer", 4096))
         mods = (C, G)
 
@@ -449,6 +469,7 @@ class World:
         return st
 
     def cleanup(self, st):
+        gen.EPHEMERAL_DEFS[0] = False
         st["store"].cleanup()
 
     def _build(self, ctx, kind, spec):
@@ -482,6 +503,8 @@ class World:
                     ctx.probe("custom-gate")
                     if spec.get("cv"):
                         ctx.probe("custom-gate-alt-definition")
+                    if spec.get("cn"):
+                        ctx.probe("custom-gate-case-variant-name")
                 for p in g.get("p", []):
                     if isinstance(p, float):
                         ctx.probe("float-param")
@@ -508,7 +531,18 @@ class World:
             ctx.probe("value-unbuildable")
             ctx.log(op, "unbuildable", err=type(obj).__name__)
             return
-        value = {"obj": obj, "rs": step["rs"]}
+        kind_, spec_ = a["kind"], a["value"]
+        value = LazyValue(obj=obj, rs=step["rs"],
+                          _rebuild=lambda: gen.build_circuit(spec_) if kind_ == "circuit" else [gen.build_circuit(c) for c in spec_])
+        del obj
+        try:
+            return self._step_with_value(ctx, st, step, a, op, value)
+        finally:
+            if st.get("ephemeral"):
+                value.drop()
+
+    def _step_with_value(self, ctx, st, step, a, op, value):
+        obj = value["obj"]
         if op == "save":
             ctx.probe("via-" + a["via"])
             store = st["store"]
@@ -622,6 +656,8 @@ def _shrink_circuit(c):
         yield {**base, "ops": rest, "n": max(n or 0, need) or None} if (n or not rest) else {**base, "ops": rest}
     if c.get("cv"):
         yield {k: v for k, v in c.items() if k != "cv"}
+    if c.get("cn"):
+        yield {k: v for k, v in c.items() if k != "cn"}
     for i, o in enumerate(ops):
         for g2 in _shrink_gate(o["gate"]):
             k_old, k_new = gen.gate_arity(o["gate"]), gen.gate_arity(g2)
